@@ -22,7 +22,7 @@ def size2Of (c : Nat) : Nat :=
   if c / 32 == 5 then c % 32 else if c / 16 == 9 || c / 16 == 8 then c % 16 else (size0Ext c).1
 
 /-- the size bytes after the header byte -/
-def hdrOf (c : Nat) (r : R) : Option (List Byte × Nat) × R :=
+def hdrOf_d4 (c : Nat) (r : R) : Option (List Byte × Nat) × R :=
   if sizeBytesOf c > 0 then
     match r.readBytes (sizeBytesOf c) with
     | (some bs, r) => (some (bs, beNat bs), r)
@@ -42,7 +42,7 @@ def dispatch {α : Type} (code : Byte) (r : R)
   else if c == 0xcb then kF64
   else if c ≤ 0x7f || c ≥ 0xe0 then kFix c
   else
-    match hdrOf c r with
+    match hdrOf_d4 c r with
     | (none, r) => kInc r
     | (some (hb, size), r) =>
       if c == 0xdc || c == 0xdd || c / 16 == 9 then kArr size r
@@ -114,7 +114,7 @@ theorem parseVariant_succ (env : Env) (fuel limit : Nat) (flt : Flt) (hasDst : B
               | (some bs, r) => finV .ok (.raw (code :: hb ++ bs)) r
               | (none, r) => finV .incomplete .null r
             else match r.skipBytes size with | (true, r) => finV .ok .null r | (false, r) => finV .incomplete .null r) := by
-  simp only [parseVariant, dispatch, hdrOf, size2Of, size0Ext, sizeBytesOf, leafFixed, finV]
+  simp only [parseVariant, dispatch, hdrOf_d4, size2Of, size0Ext, sizeBytesOf, leafFixed, finV]
   rfl
 
 /-- what the header byte (and the size bytes after it) announce -/
@@ -157,7 +157,7 @@ theorem dispatch_eq {α : Type} (code : Byte) (r : R)
   by_cases h7 : (decide (code.toNat ≤ 127) || decide (code.toNat ≥ 224)) = true
   · rw [if_pos h7, if_pos h7]
   rw [if_neg h7, if_neg h7]
-  generalize hdrOf code.toNat r = hdr
+  generalize hdrOf_d4 code.toNat r = hdr
   obtain ⟨_ | ⟨hb, size⟩, r'⟩ := hdr
   · rfl
   simp only []
@@ -245,7 +245,7 @@ theorem parseVariant_step (env : Env) (fuel limit : Nat) (flt : Flt) (hasDst : B
 /-! ## one step of `readObject` -/
 
 /-- the length of a map key: `none` = not a string (InvalidInput), `some none` = size bytes missing -/
-def keyLenOf (code : Byte) (r : R) : Option (Option Nat) × R :=
+def keyLenOf_d3 (code : Byte) (r : R) : Option (Option Nat) × R :=
   let c := code.toNat
   if c / 32 == 5 then (some (some (c % 32)), r)
   else if 0xd9 ≤ c && c ≤ 0xdb then
@@ -262,7 +262,7 @@ theorem readObject_step (env : Env) (fuel limit : Nat) (flt : Flt) (hasObj : Boo
       match r.read with
       | (none, r) => (.incomplete, ms, r)
       | (some code, r) =>
-        match keyLenOf code r with
+        match keyLenOf_d3 code r with
         | (none, r) => (.invalid, ms, r)
         | (some none, r) => (.incomplete, ms, r)
         | (some (some len), r) =>
@@ -275,7 +275,7 @@ theorem readObject_step (env : Env) (fuel limit : Nat) (flt : Flt) (hasObj : Boo
               readObject env fuel limit flt hasObj (n - 1) r
                 (if hasObj && (flt.subKey key).allow then ms ++ [(key, v)] else ms)
             | (e, v, r, _) => (e, (if hasObj && (flt.subKey key).allow then ms ++ [(key, v)] else ms), r) := by
-  simp only [readObject, keyLenOf]
+  simp only [readObject, keyLenOf_d3]
   rfl
 
 end MD
